@@ -1688,8 +1688,10 @@ impl Node {
         channel_id: ChannelId,
         arc_self: &Arc<Node>,
     ) -> Result<(ChannelId, Option<ChannelSlot>), Status> {
-        // read the chain height first: the tracker lock comes before the channels lock
-        let blockheight = arc_self.get_tracker().height();
+        // The tracker lock comes before the channels lock.  Keep it until the stub exists, so
+        // that the recorded height is the chain height at the time of creation.
+        let tracker = arc_self.get_tracker();
+        let blockheight = tracker.height();
         let mut channels = self.get_channels();
         let policy = self.policy();
         if channels.len() >= policy.max_channels() {
